@@ -45,6 +45,9 @@ pub enum PayLie {
     NewLockMismatch(ScSpec),
     /// the close state carries another customer (true) / merchant (false) balance than the new state
     CloseBalanceMismatch(bool, ScSpec),
+    /// slot (0 cid, 2 lock, 3 cb, 4 mb) raised by delta in the new state and lowered by delta in the
+    /// close state (cancels in an unweighted aggregate of the two sub-proofs)
+    Compensating(u8, ScSpec),
     /// token signed under another merchant's key
     TokenOtherKey,
     /// token with sigma2 shifted (not a valid signature)
@@ -68,6 +71,7 @@ impl PayLie {
             PayLie::OldLockMismatch(_) => "old-lock-mismatch".into(),
             PayLie::NewLockMismatch(_) => "new-lock-mismatch".into(),
             PayLie::CloseBalanceMismatch(c, _) => format!("close-state-{}-balance-differs", if *c { "customer" } else { "merchant" }),
+            PayLie::Compensating(s, _) => format!("compensating-slot-{}", s),
             PayLie::TokenOtherKey => "token-of-other-key".into(),
             PayLie::TokenShifted(_) => "token-tampered".into(),
             PayLie::TokenForOtherState(..) => "token-for-other-state".into(),
@@ -91,6 +95,7 @@ pub fn pay_strategy_label(s: &PayStrategy) -> String {
         PayStrategy::TLast(x, fr) => format!("scalar-commitment-of-{}-chosen-after-challenge{}", f(x), if *fr { "+revealed" } else { "" }),
         PayStrategy::CLast(x, fr) => format!("commitment-of-{}-chosen-after-challenge{}", f(x), if *fr { "+revealed" } else { "" }),
         PayStrategy::Mutate(..) => "mutated-atoms".into(),
+        PayStrategy::AnswerAsAgreed => "responses-as-if-truthful-values-were-committed".into(),
     }
 }
 
@@ -110,8 +115,9 @@ fn lie_strategy() -> impl Strategy<Value = PayLie> {
         2 => any::<bool>().prop_map(PayLie::AmountOneSide),
         2 => (any::<bool>(), delta_spec()).prop_map(|(a, d)| PayLie::AmountOff(a, d)),
         1 => Just(PayLie::SignFlipped),
-        2 => (0u8..3).prop_map(PayLie::Overdraw),
-        1 => (0u8..3).prop_map(PayLie::MerchantOverdraw),
+        4 => (0u8..5).prop_map(PayLie::Overdraw),
+        3 => (0u8..5).prop_map(PayLie::MerchantOverdraw),
+        3 => (prop_oneof![Just(0u8), Just(2u8), Just(3u8), Just(4u8)], delta_spec()).prop_map(|(s, d)| PayLie::Compensating(s, d)),
         2 => (0u8..3, delta_spec()).prop_map(|(w, d)| PayLie::ForeignCid(w, d)),
         3 => (0u8..3, any::<u64>()).prop_map(|(w, s)| PayLie::TagReplaced(w, s)),
         2 => delta_spec().prop_map(PayLie::OldLockMismatch),
@@ -142,6 +148,7 @@ fn strat_strategy() -> impl Strategy<Value = PayStrategy> {
         5 => (field_strategy(), any::<bool>()).prop_map(|(f, r)| PayStrategy::TLast(f, r)),
         5 => (field_strategy(), any::<bool>()).prop_map(|(f, r)| PayStrategy::CLast(f, r)),
         1 => (any::<u8>(), any::<u64>()).prop_map(|(n, s)| PayStrategy::Mutate(n, s)),
+        2 => Just(PayStrategy::AnswerAsAgreed),
     ]
 }
 
@@ -152,7 +159,7 @@ fn natural_field(lie: &PayLie, alt: bool) -> Option<PayField> {
         PayLie::None => return None,
         PayLie::WrongNonce(_) | PayLie::TokenOtherKey | PayLie::TokenShifted(_) | PayLie::TokenForOtherState(..) => PayField::Token,
         PayLie::OldLockMismatch(_) => if alt { PayField::Token } else { PayField::RevLock },
-        PayLie::TagReplaced(..) | PayLie::NewLockMismatch(_) | PayLie::CloseBalanceMismatch(..) => PayField::Close,
+        PayLie::TagReplaced(..) | PayLie::NewLockMismatch(_) | PayLie::CloseBalanceMismatch(..) | PayLie::Compensating(..) => PayField::Close,
         PayLie::ForeignCid(w, _) => if w % 3 == 2 { PayField::Close } else { PayField::State },
         PayLie::AmountOneSide(_) | PayLie::AmountOff(..) | PayLie::SignFlipped => if alt { PayField::Token } else { PayField::State },
         PayLie::Overdraw(k) => if alt { PayField::State } else { PayField::CbDigit(*k) },
@@ -163,6 +170,9 @@ fn natural_field(lie: &PayLie, alt: bool) -> Option<PayField> {
 fn strategy(t: Tier) -> impl Strategy<Value = Case> {
     (0u8..t.pick(4, 12), amt_sel(), lie_strategy(), strat_strategy(), any::<bool>(), any::<bool>(), any::<u64>()).prop_map(|(source, amount, lie, strategy, matched, alt, seed)| {
         let strategy = match (&strategy, matched, natural_field(&lie, alt)) {
+            // cancelling lies / cancelling digit pairs only have a chance with these strategies
+            (_, true, _) if matches!(lie, PayLie::Compensating(..)) => PayStrategy::AnswerAsAgreed,
+            (_, true, _) if matches!(lie, PayLie::Overdraw(3) | PayLie::Overdraw(4) | PayLie::MerchantOverdraw(3) | PayLie::MerchantOverdraw(4)) => PayStrategy::Plain,
             (PayStrategy::TLast(_, fr), true, Some(f)) => PayStrategy::TLast(f, *fr),
             (PayStrategy::CLast(_, fr), true, Some(f)) => PayStrategy::CLast(f, *fr),
             _ => strategy,
@@ -315,13 +325,13 @@ fn oracle(c: &Case, rec: &Rec) -> R {
             amt = src.cb as i128 + 1;
             ncb = -1;
             nmb = src.mb as i128 + amt;
-            digits_for.0 = Some(match alt % 3 { 0 => 0, 1 => (1i128 << 63) - 1, _ => 1 });
+            digits_for.0 = Some(match alt % 4 { 0 | 3 => 0, 1 => (1i128 << 63) - 1, _ => 1 });
         }
         PayLie::MerchantOverdraw(alt) => {
             amt = -(src.mb as i128 + 1);
             nmb = -1;
             ncb = src.cb as i128 - amt;
-            digits_for.1 = Some(match alt % 3 { 0 => 0, 1 => (1i128 << 63) - 1, _ => 1 });
+            digits_for.1 = Some(match alt % 4 { 0 | 3 => 0, 1 => (1i128 << 63) - 1, _ => 1 });
         }
         PayLie::ForeignCid(w, d) => {
             if w % 3 != 2 {
@@ -340,7 +350,7 @@ fn oracle(c: &Case, rec: &Rec) -> R {
         }
         PayLie::OldLockMismatch(d) => revoked += nonzero(d),
         PayLie::NewLockMismatch(d) => l_close += nonzero(d),
-        PayLie::CloseBalanceMismatch(..) => {} // applied to the close-state message below
+        PayLie::CloseBalanceMismatch(..) | PayLie::Compensating(..) => {} // applied to the messages below
         PayLie::TokenOtherKey => {
             let other = proto::merchant(m.seed + 500);
             let hh = G1Projective::from(other.pk.g1) * rand_nonzero_scalar(c.seed ^ 0x31);
@@ -395,7 +405,23 @@ fn oracle(c: &Case, rec: &Rec) -> R {
         revoked_lock: revoked,
         cb_digits,
         mb_digits,
+        // variant 3 of the overdraw lies: digits of 0 with "digit" 0 claimed as -1, so that the digit
+        // sum really is the negative balance (every digit proof but one is then a true statement)
+        cb_digit0_shift: if matches!(c.lie, PayLie::Overdraw(3)) { -Scalar::one() } else { Scalar::zero() },
+        mb_digit0_shift: if matches!(c.lie, PayLie::MerchantOverdraw(3)) { -Scalar::one() } else { Scalar::zero() },
+        // variant 4: two jointly crafted digit proofs whose pairing errors cancel, aimed at -1
+        cb_cancel: if matches!(c.lie, PayLie::Overdraw(4)) { Some(-Scalar::one()) } else { None },
+        mb_cancel: if matches!(c.lie, PayLie::MerchantOverdraw(4)) { Some(-Scalar::one()) } else { None },
     };
+    // compensating lies: one slot raised in the new state and lowered in the close state
+    let mut hidden = hidden;
+    if let PayLie::Compensating(s, d) = &c.lie {
+        let k = match *s { 0 => 0usize, 2 => 2, 3 => 3, _ => 4 };
+        hidden.state[k] += nonzero(d);
+        hidden.close[k] -= nonzero(d);
+    }
+    // what a truthful prover would have committed to for this payment
+    let truthful = (old, [old[0], n_new, l_new, i128_scalar(src.cb as i128 - amt), i128_scalar(src.mb as i128 + amt)], [old[0], CLOSE, l_new, i128_scalar(src.cb as i128 - amt), i128_scalar(src.mb as i128 + amt)], old[2]);
     let public = PayPublic { nonce: nonce_pub, amount: i128_scalar(amt) };
     let know = Knowledge { token_valid_on_old: ps_verify(&m.pk, &hidden.old, &token.0, &token.1) };
     let amount_v = proto::amount(amt as i64);
@@ -408,6 +434,7 @@ fn oracle(c: &Case, rec: &Rec) -> R {
     };
 
     let mut f = PayForger::commit(m, &template, &hidden, c.seed);
+    f.truthful = Some(truthful);
     let draft: PayProof = wire::dec(&f.bytes()).map_err(|e| Fail::new("harness/draft-undecodable", e))?;
     let _ = drain();
     let _ = m.cfg.allow_payment(&mut rng(c.seed), amount_v, &nonce_v, draft, &ctx);
